@@ -521,6 +521,9 @@ type swCase struct {
 	// Plan: when set, the two sequences are not constructed afresh: they are the rows of an
 	// alignment obtained through this chain of public operations (gen.BuildVia) and un-aligned
 	Plan *gen.Plan `json:"plan,omitempty"`
+	// Hist: when set, the two sequences are objects with a past: members of a SeqBag that held other
+	// contents, were used (aligned, alphabet detected), then edited in place until they hold S1/S2
+	Hist *history `json:"hist,omitempty"`
 }
 
 func allIn(s string, t *table) bool {
@@ -646,6 +649,13 @@ func runLibrary(c swCase) (ob obs, al align.Alignment, s1, s2 align.Sequence, er
 			}
 		}
 	}
+	if s1 == nil && c.Hist != nil {
+		if s1, s2, err = c.Hist.build(c); err != nil {
+			s1 = align.NewSequence("query", []uint8(c.S1), "comment one")
+			s2 = align.NewSequence("subject", []uint8(c.S2), "comment two")
+			return
+		}
+	}
 	if s1 == nil {
 		s1 = align.NewSequence("query", []uint8(c.S1), "comment one")
 		s2 = align.NewSequence("subject", []uint8(c.S2), "comment two")
@@ -702,6 +712,11 @@ func checkSW(c swCase) (o pbt.Outcome, err error) {
 		}
 	}
 	tables, openAlphabet := tablesFor(c)
+	if c.Hist != nil {
+		if m1, m2 := c.Hist.model(); m1 != c.S1 || m2 != c.S2 {
+			return o, fmt.Errorf("harness: the drawn edits lead to %q / %q, the case says %q / %q", m1, m2, c.S1, c.S2)
+		}
+	}
 	ob, al, q1, q2, e := runLibrary(c)
 	prov := lastProvenance
 	// inputs unmodified, whatever happened
@@ -770,6 +785,9 @@ tables:
 		} else {
 			o.Class(prov)
 		}
+	}
+	if c.Hist != nil {
+		c.Hist.classes(&o, c)
 	}
 	if len(c.Calls) > 0 {
 		order := ""
